@@ -4,7 +4,7 @@ import ast
 
 from ..rulekit import *
 from ..exc import EscapeAnalysis
-from ._kit_c09 import Walker, K, none_test, const_test, origin, record_fields, record_arg
+from ._kit_c09 import Walker, K, none_test, const_test, origin, record_fields, record_arg, Event
 
 R = Rules(
     "C09",
@@ -837,64 +837,423 @@ def _handler_name_ok(nm, req):
     return False
 
 
-def _code_for_method(prog, W, o, v, subj, mth):
-    """(member name, number) of the Code constant the resolved expression v denotes when the request's method is mth:
-    a Code constant, a conditional expression over the method, or a lookup in a literal table keyed by Code constants"""
-    fi = getattr(v, "_fi", None)
-    if fi is None:
+# ---- what a default-code expression evaluates to, per request method ---------------------------------------------
+#
+# The property fixes the default success code for EVERY request method.  A default that is looked up in a mapping is
+# therefore decided like the if/elif chain it replaces: the mapping is read as the finite function it denotes (its rows,
+# what an absent key does under the kind of lookup used: `m[k]` raises KeyError, `m.get(k)` gives None, `m.get(k, d)`
+# gives d, a defaultdict gives its factory's value), and the lookup is evaluated for each of the seven methods.  A
+# method without a row under `m[k]` is a KeyError leaving render after the handler succeeded -- a violation, not a
+# shape the rule cannot read.  Only a mapping whose content cannot be known statically (computed, mutated somewhere,
+# overridden in a subclass) is refused.
+
+
+class _Table:
+    """a statically known mapping: rows = [(("num", int) | ("name", str), value expr, module)] (later rows win),
+    missing = (value expr, module) a subscript of an absent key evaluates to (defaultdict) or None (KeyError)"""
+
+    def __init__(self, rows, missing=None):
+        self.rows = rows
+        self.missing = missing
+
+    def row(self, key):
+        for k, v, m in reversed(self.rows):
+            if k == key:
+                return v, m
         return None
-    cv = _code_value(prog, fi.module, v)
-    if cv is not None:
-        return cv
-    if isinstance(v, ast.IfExp):
-        vals = dict(o.vals)
-        vals[subj] = mth
-        t = W._truth(v.test, o.dec, vals)
-        if t is None:
-            return None
-        return _code_for_method(prog, W, o, v.body if t else v.orelse, subj, mth)
-    table = key = default = None
-    if isinstance(v, ast.Subscript):
-        table, key = v.value, v.slice
-    elif isinstance(v, ast.Call) and isinstance(v.func, ast.Attribute) and v.func.attr == "get" and 1 <= len(v.args) <= 2 and not v.keywords:
-        table, key = v.func.value, v.args[0]
-        default = v.args[1] if len(v.args) == 2 else None
-    if table is None or K(key) != subj:
+
+
+def _mod_of(e, mod):
+    fi = getattr(e, "_fi", None)
+    return fi.module if fi is not None else mod
+
+
+def _any_receiver_stores(tree, field):
+    """stores through any attribute chain ending in .<field>, anywhere in the tree (nested functions included)"""
+    recv = set()
+    for n in ast.walk(tree):
+        if isinstance(n, ast.Attribute) and n.attr == field:
+            c = chain(n)
+            if c:
+                recv.add(c)
+    out = []
+    for c in sorted(recv):
+        out.extend(stores_to(tree, c))
+    return out
+
+
+def _closed_module_name(prog, mod, name):
+    """the module-level name is bound by exactly one top-level assignment and nothing in the package rebinds or mutates
+    it (in its module: under its name or an alias; elsewhere: under the name it is imported as, or as an attribute)"""
+    qn = mod.name + "." + name
+    own = stores_to(mod.tree, name)
+    top = [n for k, n in own if k == "assign" and any(n is st for st in mod.tree.body)]
+    if len(top) != 1 or len(own) != 1:
+        return False
+    for m in prog.modules.values():
+        if _any_receiver_stores(m.tree, name):
+            return False
+        if m is mod:
+            continue
+        for alias, tgt in m.imports.items():
+            if tgt == qn or prog.canonical(tgt) == qn:
+                if stores_to(m.tree, alias):
+                    return False
+    return True
+
+
+def _named_definition(prog, W, d, mod):
+    """(defining expression, its module) of the closed module constant / class attribute the chain d denotes, else None"""
+    c = chain(d)
+    if c is None:
         return None
-    d = table
-    if not isinstance(d, ast.Dict):
-        c = chain(d)
-        tfi = getattr(d, "_fi", None)
-        if c is None or tfi is None:
+    parts = c.split(".")
+    fi = getattr(d, "_fi", None)
+    try:
+        if parts[0] in ("self", "cls") and len(parts) == 2 and fi is not None and W._clsqn(fi) is not None:
+            owner_q = W._clsqn(fi)
+        elif len(parts) >= 2 and prog.resolve_in_module(mod, ".".join(parts[:-1])) in prog.classes:
+            owner_q = prog.resolve_in_module(mod, ".".join(parts[:-1]))
+        else:
+            owner_q = None
+        if owner_q is not None:
+            expr, ci = prog.class_attr(owner_q, parts[-1])
+            if expr is None:
+                return None
+            # one binding in the class body, no override below the class the lookup starts from, no store anywhere
+            if len(stores_to(ci.node, parts[-1], nested=False)) != 1:
+                return None
+            for q in prog.subclasses(owner_q):
+                sc = prog.classes.get(q)
+                if sc is not None and sc is not ci and parts[-1] in sc.attrs and q not in prog.mro(ci.qn):
+                    return None
+            if any(_any_receiver_stores(m.tree, parts[-1]) for m in prog.modules.values()):
+                return None
+            return expr, ci.module
+        q = prog.resolve_in_module(mod, c)
+        owner, _, name = q.rpartition(".")
+        if owner not in prog.modules:
             return None
-        parts = c.split(".")
-        d = None
-        try:
-            if len(parts) == 1:
-                d = prog.module_const(tfi.module.name, parts[0])
-            elif len(parts) == 2 and parts[0] in ("self", "cls") and W._clsqn(tfi) is not None:
-                d = prog.class_attr(W._clsqn(tfi), parts[1])[0]
-            elif len(parts) == 2:
-                q = prog.resolve_in_module(tfi.module, parts[0])
-                d = prog.class_attr(q, parts[1])[0] if q in prog.classes else None
-        except AnchorError:
-            d = None
-        if not isinstance(d, ast.Dict):
+        dm = prog.modules[owner]
+        expr = prog.module_const(owner, name)
+        if not _closed_module_name(prog, dm, name):
             return None
-        tmod = tfi.module
-    else:
-        tmod = getattr(d, "_fi", fi).module
-    for k_, v_ in zip(d.keys, d.values):
-        if k_ is None:
-            return None
-        kc = _code_value(prog, tmod, k_)
-        if kc is None:
-            return None
-        if kc[0] == mth:
-            return _code_value(prog, tmod, v_)
-    if default is not None:
-        return _code_for_method(prog, W, o, default, subj, mth)
+        return expr, dm
+    except AnchorError:
+        return None
+
+
+def _literal_elements(prog, W, e, mod, depth=0):
+    """elements of a literal sequence / set display (or a closed constant denoting one)"""
+    if depth > 4:
+        return None
+    if isinstance(e, (ast.Tuple, ast.List, ast.Set)):
+        return None if any(isinstance(x, ast.Starred) for x in e.elts) else [(x, _mod_of(x, mod)) for x in e.elts]
+    if isinstance(e, ast.Call) and chain(e.func) in ("tuple", "list", "set", "frozenset", "sorted") and len(e.args) == 1 and not e.keywords:
+        return _literal_elements(prog, W, e.args[0], mod, depth + 1)
+    if isinstance(e, (ast.Name, ast.Attribute)):
+        nd = _named_definition(prog, W, e, _mod_of(e, mod))
+        if nd is not None:
+            return _literal_elements(prog, W, nd[0], nd[1], depth + 1)
     return None
+
+
+def _table_key(prog, k, mod):
+    cv = _code_value(prog, mod, k)
+    if cv is not None:
+        return ("num", cv[1])
+    if isinstance(k, ast.Constant) and type(k.value) is int:
+        return ("num", k.value)
+    if isinstance(k, ast.Constant) and type(k.value) is str:
+        return ("name", k.value)
+    m = match("$c.name", k) or match("str($c)", k)
+    if m is not None:
+        cv = _code_value(prog, mod, m["c"])
+        if cv is not None:
+            return ("name", cv[0])
+    m = match("$c.value", k) or match("int($c)", k)
+    if m is not None:
+        cv = _code_value(prog, mod, m["c"])
+        if cv is not None:
+            return ("num", cv[1])
+    return None
+
+
+def _table(prog, W, d, mod, depth=0):
+    """the _Table a mapping expression denotes; None when its content is not statically known.  Read alike: a dict
+    display (with ** of known tables), dict(<table or pairs>), dict.fromkeys(<literal>, v), a dict comprehension over a
+    literal whose key is the loop variable, `a | b`, .copy(), MappingProxyType(..), defaultdict(lambda: v[, table]),
+    and a closed module constant / class attribute bound to any of these"""
+    if depth > 6 or d is None:
+        return None
+    mod = _mod_of(d, mod)
+    sub = lambda x, m_=None: _table(prog, W, x, m_ or mod, depth + 1)
+    if isinstance(d, ast.Dict):
+        rows = []
+        for k_, v_ in zip(d.keys, d.values):
+            if k_ is None:
+                t = sub(v_)
+                if t is None:
+                    return None
+                rows.extend(t.rows)
+                continue
+            key = _table_key(prog, k_, _mod_of(k_, mod))
+            if key is None:
+                return None
+            rows.append((key, v_, _mod_of(v_, mod)))
+        return _Table(rows)
+    if isinstance(d, (ast.List, ast.Tuple)):
+        # pairs
+        rows = []
+        for el in d.elts:
+            if not (isinstance(el, (ast.Tuple, ast.List)) and len(el.elts) == 2):
+                return None
+            key = _table_key(prog, el.elts[0], _mod_of(el.elts[0], mod))
+            if key is None:
+                return None
+            rows.append((key, el.elts[1], _mod_of(el.elts[1], mod)))
+        return _Table(rows)
+    if isinstance(d, ast.BinOp) and isinstance(d.op, ast.BitOr):
+        a, b = sub(d.left), sub(d.right)
+        if a is None or b is None:
+            return None
+        return _Table(a.rows + b.rows, a.missing)
+    if isinstance(d, ast.DictComp):
+        if len(d.generators) != 1:
+            return None
+        g = d.generators[0]
+        if g.ifs or g.is_async or not isinstance(g.target, ast.Name) or not (isinstance(d.key, ast.Name) and d.key.id == g.target.id):
+            return None
+        if any(isinstance(n, ast.Name) and n.id == g.target.id for n in ast.walk(d.value)):
+            return None
+        els = _literal_elements(prog, W, g.iter, mod)
+        if els is None:
+            return None
+        rows = []
+        for x, xm in els:
+            key = _table_key(prog, x, xm)
+            if key is None:
+                return None
+            rows.append((key, d.value, _mod_of(d.value, mod)))
+        return _Table(rows)
+    if isinstance(d, ast.Call) and not any(isinstance(a, ast.Starred) for a in d.args) and not any(k.arg is None for k in d.keywords):
+        fn = chain(d.func) or ""
+        last = fn.split(".")[-1]
+        if fn == "dict" and len(d.args) == 1 and not d.keywords:
+            return sub(d.args[0])
+        if last in ("MappingProxyType", "frozendict") and len(d.args) == 1 and not d.keywords:
+            return sub(d.args[0])
+        if isinstance(d.func, ast.Attribute) and d.func.attr == "copy" and not d.args and not d.keywords:
+            return sub(d.func.value)
+        if fn == "dict.fromkeys" and 1 <= len(d.args) <= 2 and not d.keywords:
+            els = _literal_elements(prog, W, d.args[0], mod)
+            if els is None:
+                return None
+            val = d.args[1] if len(d.args) == 2 else ast.Constant(value=None)
+            rows = []
+            for x, xm in els:
+                key = _table_key(prog, x, xm)
+                if key is None:
+                    return None
+                rows.append((key, val, _mod_of(val, mod)))
+            return _Table(rows)
+        if last == "defaultdict" and 1 <= len(d.args) <= 2 and not d.keywords:
+            f = d.args[0]
+            a = f.args if isinstance(f, ast.Lambda) else None
+            if a is None or a.posonlyargs or a.args or a.kwonlyargs or a.vararg or a.kwarg:
+                return None
+            inner = sub(d.args[1]) if len(d.args) == 2 else _Table([])
+            if inner is None:
+                return None
+            return _Table(inner.rows, (f.body, _mod_of(f.body, mod)))
+        return None
+    if isinstance(d, (ast.Name, ast.Attribute)):
+        nd = _named_definition(prog, W, d, mod)
+        if nd is None:
+            return None
+        return sub(nd[0], nd[1])
+    return None
+
+
+class _MethodEval:
+    """evaluates resolved expressions of Resource.render for one request method at a time"""
+
+    def __init__(self, prog, W, subj):
+        self.prog, self.W, self.subj = prog, W, subj
+        self._tables = {}
+        ci = prog.cls("numbers.codes.Code")
+        self.num = {}
+        for mth, n in METHODS.items():
+            try:
+                v = norm.consteval(ci.attrs[mth]) if mth in ci.attrs else None
+            except norm.NormError:
+                v = None
+            self.num[mth] = v if isinstance(v, int) else n
+
+    def table(self, d, o=None):
+        mod = _mod_of(d, None)
+        if mod is None:
+            return None
+        k = (K(d), mod.name)
+        if k not in self._tables:
+            self._tables[k] = _table(self.prog, self.W, d, mod)
+        t = self._tables[k]
+        if t is not None and o is not None and not isinstance(d, (ast.Name, ast.Attribute)):
+            # a mapping built on the path: nothing on the path stores into it
+            kd = K(d)
+            if o.stores(lambda s: isinstance(s.target, ast.Subscript) and K(s.target.value) == kd):
+                return None
+        return t
+
+    def key(self, k, mth):
+        """the table key the resolved expression k denotes for method mth: the code itself (an IntEnum: hashes and
+        compares like its number), its number, or its name"""
+        if K(k) == self.subj:
+            return ("num", self.num[mth])
+        for p in ("int($c)", "$c.value", "$c.__index__()"):
+            m = match(p, k)
+            if m is not None and K(m["c"]) == self.subj:
+                return ("num", self.num[mth])
+        for p in ("$c.name", "str($c)", "format($c)"):
+            # Code.__str__ gives the member name for request codes (see _handler_name_ok)
+            m = match(p, k)
+            if m is not None and K(m["c"]) == self.subj:
+                return ("name", mth)
+        return None
+
+    def lookup(self, v):
+        """(table expr, key expr, kind, default expr) when v is a mapping read: m[k] / m.__getitem__(k) -> "item",
+        m.get(k[, d]) -> "get" """
+        if isinstance(v, ast.Subscript) and not isinstance(v.slice, ast.Slice):
+            return v.value, v.slice, "item", None
+        if isinstance(v, ast.Call) and isinstance(v.func, ast.Attribute) and not v.keywords and not any(isinstance(a, ast.Starred) for a in v.args):
+            if v.func.attr == "get" and 1 <= len(v.args) <= 2:
+                return v.func.value, v.args[0], "get", (v.args[1] if len(v.args) == 2 else None)
+            if v.func.attr == "__getitem__" and len(v.args) == 1:
+                return v.func.value, v.args[0], "item", None
+        return None
+
+    def value(self, o, v, mth, mod=None, depth=0):
+        """("code", member, number) | ("none",) | ("raise", "KeyError", lookup node) | None (not interpretable)"""
+        if v is None or depth > 8:
+            return None
+        mod = _mod_of(v, mod)
+        if mod is None:
+            return None
+        if isinstance(v, ast.Constant):
+            return ("none",) if v.value is None else None
+        cv = _code_value(self.prog, mod, v)
+        if cv is not None:
+            return ("code",) + cv
+        rec = lambda x: self.value(o, x, mth, mod, depth + 1)
+        if isinstance(v, ast.IfExp):
+            t = self.truth(o, v.test, mth)
+            if t is None:
+                a, b = rec(v.body), rec(v.orelse)
+                return a if a is not None and a[:3] == (b or ())[:3] and a[0] != "raise" else None
+            return rec(v.body if t else v.orelse)
+        if isinstance(v, ast.BoolOp):
+            # `a or b`: the first true operand (a Code member is true unless its number is 0), else the last
+            r = None
+            for i, x in enumerate(v.values):
+                r = rec(x)
+                if r is None or r[0] == "raise" or i == len(v.values) - 1:
+                    return r
+                true = r[0] == "code" and r[2] != 0
+                if true == isinstance(v.op, ast.Or):
+                    return r
+            return r
+        lk = self.lookup(v)
+        if lk is None:
+            return None
+        texpr, kexpr, kind, default = lk
+        key = self.key(kexpr, mth)
+        t = self.table(texpr, o)
+        if key is None or t is None:
+            return None
+        hit = t.row(key)
+        if hit is not None:
+            return self.value(o, hit[0], mth, hit[1], depth + 1)
+        if kind == "get":
+            return rec(default) if default is not None else ("none",)
+        if t.missing is not None:
+            return self.value(o, t.missing[0], mth, t.missing[1], depth + 1)
+        return ("raise", "KeyError", v)
+
+    def truth(self, o, e, mth):
+        """truth of a resolved condition for method mth as far as it is a fact about the method (membership in a known
+        table, a known lookup result being None / true), else what the path decided; None: not known"""
+        if isinstance(e, ast.UnaryOp) and isinstance(e.op, ast.Not):
+            t = self.truth(o, e.operand, mth)
+            return None if t is None else not t
+        if isinstance(e, ast.BoolOp):
+            ts = [self.truth(o, x, mth) for x in e.values]
+            if isinstance(e.op, ast.And):
+                return False if any(t is False for t in ts) else (True if all(t is True for t in ts) else None)
+            return True if any(t is True for t in ts) else (False if all(t is False for t in ts) else None)
+        if isinstance(e, ast.Compare) and len(e.ops) == 1 and isinstance(e.ops[0], (ast.In, ast.NotIn)):
+            key = self.key(e.left, mth)
+            c = e.comparators[0]
+            if isinstance(c, ast.Call) and isinstance(c.func, ast.Attribute) and c.func.attr == "keys" and not c.args and not c.keywords:
+                c = c.func.value
+            if key is not None and not isinstance(c, (ast.Tuple, ast.List, ast.Set)):
+                t = self.table(c, o)
+                if t is not None:
+                    inside = t.row(key) is not None
+                    return inside if isinstance(e.ops[0], ast.In) else not inside
+        nt = none_test(e)
+        if nt is not None and self.lookup(nt[0]) is not None:
+            r = self.value(o, nt[0], mth)
+            if r is not None and r[0] in ("none", "code"):
+                return (r[0] == "none") == nt[1]
+        if self.lookup(e) is not None:
+            r = self.value(o, e, mth)
+            if r is not None and r[0] in ("none", "code"):
+                return r[0] == "code" and r[2] != 0
+        vals = dict(o.vals)
+        vals[self.subj] = mth
+        return self.W._truth(e, o.dec, vals)
+
+    def lookups_in(self, exprs, o):
+        """the raising mapping reads `m[<the method>]` into known tables inside the resolved expressions, and whether
+        anything else in them may raise"""
+        found, other = [], False
+        for x in exprs:
+            for n in ast.walk(x):
+                lk = self.lookup(n)
+                if lk is not None and lk[2] == "item" and self.key(lk[1], "GET") is not None and self.table(lk[0], o) is not None:
+                    found.append(n)
+                elif isinstance(n, (ast.Await, ast.BinOp, ast.Subscript, ast.Yield, ast.YieldFrom)) or (isinstance(n, ast.Call) and not getattr(n, "_pure", False) and lk is None):
+                    other = True
+        return found, other
+
+    def feasible(self, o, mth):
+        """can a request with method mth take the path o?  The walker treats a membership test in a table, the None-ness
+        of a lookup result and the KeyError of a lookup as uninterpreted; for a known table they are facts about the
+        method, and a path that assumes the contrary is not a path of that method."""
+        for dcs in o.decisions:
+            e = dcs.expr
+            if self._about_table(e):
+                t = self.truth(o, e, mth)
+                if t is not None and t != dcs.val:
+                    return False
+        for stmt, sfi, rexprs, hnd, hfi, pos in o.implicit:
+            found, other = self.lookups_in(rexprs, o)
+            if not found or other:
+                continue
+            # the statement can only have been left through the KeyError of one of these lookups
+            raises = any((self.value(o, n, mth) or ("?",))[0] == "raise" for n in found)
+            if not raises or self.W._catches(hnd, "KeyError", hfi) is not True:
+                return False
+        return True
+
+    def _about_table(self, e):
+        for n in ast.walk(e):
+            if self.lookup(n) is not None and self.key(self.lookup(n)[1], "GET") is not None:
+                return True
+            if isinstance(n, ast.Compare) and len(n.ops) == 1 and isinstance(n.ops[0], (ast.In, ast.NotIn)) and self.key(n.left, "GET") is not None:
+                return True
+        return False
 
 
 @R.clause("C09.e", "Resource.render: non-request code -> UnsupportedMethod, missing render_<method> -> UnallowedMethod (both 4.05); default code table applied iff response.code is None; no_response copied iff unset")
@@ -957,6 +1316,8 @@ def e(ctx):
     ctx.floor("handler invocations in Resource.render", len(handlers), 1)
     n_unsupported = n_unallowed = 0
     table = {}
+    filtered = set()
+    ME = _MethodEval(prog, W, subj)
     n_code_store = n_nr = 0
     for o in outs:
         isreq = is_request(o)
@@ -1018,9 +1379,28 @@ def e(ctx):
             if what == "code" and sts and unset is True:
                 j, s = sts[-1]
                 for mth in ([o.vals[subj]] if subj in o.vals else list(METHODS)):
-                    cv = _code_for_method(prog, W, o, s.value, subj, mth)
-                    ctx.need(cv is not None, "default code %s is not a Code constant for %s" % (K(s.value), mth))
-                    table.setdefault(mth, []).append((cv, s))
+                    if not ME.feasible(o, mth):
+                        # the path assumes something about a known table that is false for this method
+                        filtered.add(mth)
+                        continue
+                    cv = ME.value(o, s.value, mth)
+                    ctx.need(cv is not None, "default code %s cannot be evaluated for %s (neither a Code constant nor a read of a mapping whose content is statically known)" % (K(s.value), mth))
+                    if cv[0] == "raise":
+                        # a lookup without a row for the method: the KeyError either continues in a handler of render
+                        # (then that continuation is the method's path, not this one) or leaves render -- although the
+                        # request had a request code and the resource's handler ran and returned
+                        site = cv[2]
+                        probe = Event("call", origin(site), getattr(site, "_fi", s.fi), s.stack)
+                        if W.exception_safe(probe, cv[1]) is not None:
+                            filtered.add(mth)
+                            continue
+                        obs.add("only a non-request code or a missing handler makes render fail", False, s.fi, s.node,
+                                detail="for %s the default code %s has no row: %s leaves render after the handler returned (answered 5.00)" % (mth, K(s.value), cv[1]))
+                        table.setdefault(mth, []).append((("<%s>" % cv[1], None), s))
+                    elif cv[0] == "none":
+                        table.setdefault(mth, []).append((("<None>", None), s))
+                    else:
+                        table.setdefault(mth, []).append((cv[1:], s))
     obs.add("a message whose code is not a request code is rejected", n_unsupported >= 1, fi, None, construct="Resource.render: non-request codes")
     obs.add("a method the resource does not implement is rejected", n_unallowed >= 1, fi, None, construct="Resource.render: missing handler")
     obs.add("the request's No-Response option is copied to the response", n_nr >= 1, fi, None, construct="Resource.render: no_response")
@@ -1028,7 +1408,8 @@ def e(ctx):
     ctx.floor("stores to response.code", n_code_store, 1)
     for mth, want in DEFAULT_CODE.items():
         got = table.get(mth, [])
-        vals = sorted({cv[1] for cv, s in got})
+        ctx.need(bool(got) or mth not in filtered, "no path of Resource.render on which a %s request gets its default code can be attributed to the method" % mth)
+        vals = sorted({cv[1] for cv, s in got}, key=lambda x: (x is None, x or 0))
         ctx.ob("default response code for %s is %d.%02d" % (mth, want[0], want[1]), vals == [_num(want)], got[0][1].fi if got else fi, got[0][1].node if got else None, detail="assigned: %s" % sorted({cv[0] for cv, s in got}),
                construct="default code for %s" % mth)
     # method constants used in the guards must denote the RFC 7252 / 8132 numbers
@@ -1931,3 +2312,14 @@ R.seed("C09.b", F_PIPE, "            old_pr.add_response(Message(code=INTERNAL_S
 R.seed("C09.c", F_PIPE, "        self._add_event(self.Event(None, exception, True))\n", "        self._add_event(self.Event(exception, None, True))\n", "the exception is put into the message slot of the event")
 R.seed("C09.c", F_PIPE, "        self._add_event(self.Event(None, exception, True))\n", "        self._add_event(self.Event(message=None, exception=exception, is_last=False))\n", "exception event not terminal (keyword construction)")
 R.seed("C09.h", F_TM, "            if not ev.is_last:\n                return True\n", "            if not ev[0]:\n                return True\n", "registration follows the message slot instead of is_last (positional read)")
+
+# seeds for the third pass: a default-code mapping is evaluated per method like the chain it replaces (absent rows included)
+_CHAIN = "            if request.code in (Code.GET, Code.FETCH):\n                response_default = Code.CONTENT\n            elif request.code == Code.DELETE:\n                response_default = Code.DELETED\n            else:\n                response_default = Code.CHANGED\n            response.code = response_default\n"
+R.seed("C09.e", F_RES, _CHAIN, "            response.code = {Code.GET: Code.CONTENT, Code.FETCH: Code.CONTENT, Code.DELETE: Code.DELETED, Code.POST: Code.CHANGED, Code.PUT: Code.CHANGED, Code.PATCH: Code.CHANGED}[request.code]\n",
+       "table-driven defaults without a row for iPATCH: KeyError -> 5.00 after the handler succeeded")
+R.seed("C09.e", F_RES, _CHAIN, "            response.code = dict.fromkeys((Code.GET, Code.FETCH), Code.CONTENT).get(request.code) or {Code.DELETE: Code.DELETED}.get(request.code)\n",
+       "methods outside the tables keep code None")
+R.seed("C09.e", F_RES, _CHAIN, "            try:\n                response.code = {Code.GET: Code.CONTENT, Code.DELETE: Code.DELETED}[request.code]\n            except LookupError:\n                response.code = Code.CHANGED\n",
+       "lookup with a KeyError fallback that forgot FETCH")
+R.seed("C09.e", F_RES, _CHAIN, "            if request.code in {Code.GET: Code.CONTENT, Code.FETCH: Code.CONTENT, Code.DELETE: Code.DELETED}:\n                response.code = {Code.GET: Code.CONTENT, Code.FETCH: Code.CONTENT}[request.code]\n            else:\n                response.code = Code.CHANGED\n",
+       "membership guard over one table, lookup in a smaller one: DELETE raises KeyError")
